@@ -303,6 +303,9 @@ func (t *Task) runWithLocking() {
 
 	// enter executing state
 	t.executing = true
+	// get the context of this execution while holding the lock, as it is
+	// replaced by a fresh one as soon as the execution finishes
+	execCtx := t.ctx
 	t.lock.Unlock()
 
 	// wait for good timeslot regarding microtasks
@@ -331,7 +334,7 @@ func (t *Task) runWithLocking() {
 	go t.executeWithLocking()
 	go func() {
 		select {
-		case <-t.ctx.Done():
+		case <-execCtx.Done():
 		case <-time.After(maxExecutionWait):
 		}
 		// complete queue worker (early) to allow next worker
